@@ -269,6 +269,7 @@ theorem applyOp_keys (l : List AStmt) (op : Op) :
     ((applyOp l op).map AStmt.key).Sublist (l.map AStmt.key) := by
   cases op with
   | removeUnused => simp only [applyOp]; rw [ruFix_key]; exact List.Sublist.refl _
+  | visitUnused => simp only [applyOp, visitUnused]; rw [ruFix_key]; exact List.Sublist.refl _
   | removeFwd i =>
     simp only [applyOp]
     cases h : removeFwd l i with
@@ -285,8 +286,10 @@ theorem history_keys (l : List AStmt) (ops : List Op) :
     simp only [history, List.foldl_cons]
     exact (ih (applyOp l op)).trans (applyOp_keys l op)
 
+/-- steps that are not statement removals of a minimiser: the pass, the unused-statements visitor, clones -/
 def Op.isRemoveUnused : Op → Bool
   | .removeUnused => true
+  | .visitUnused => true
   | .clone => true
   | _ => false
 
@@ -303,6 +306,7 @@ theorem history_keys_eq (l : List AStmt) (ops : List Op) (h : ∀ op ∈ ops, op
     rw [this]
     cases op with
     | removeUnused => exact ruFix_key l
+    | visitUnused => exact ruFix_key l
     | clone => rfl
     | removeFwd i => simp [Op.isRemoveUnused] at h1
     | chop p => simp [Op.isRemoveUnused] at h1
@@ -318,6 +322,7 @@ theorem history_readsOK {l : List AStmt} {bs : List Name} (hl : ReadsOK bs l) (o
     apply ih _ h2
     cases op with
     | removeUnused => exact hl.ruFix
+    | visitUnused => exact hl.ruFix
     | clone => exact hl
     | removeFwd i => simp [Op.isRemoveUnused] at h1
     | chop p => simp [Op.isRemoveUnused] at h1
@@ -336,6 +341,174 @@ theorem keys_sublist_oracle {l l' : List AStmt} (h : (l'.map AStmt.key).Sublist 
     funext fun _ => rfl
   rw [e, ← List.map_map, ← List.map_map]
   exact h.map _
+
+/-! ### the unused-statements visitor and the visitors that delete after the pass -/
+
+/-- a deletion policy that never selects a statement carrying an assertion (of any class) -/
+def SparesAssertions (del : List AStmt → List Nat) : Prop :=
+  ∀ (l : List AStmt) (i : Nat) (s : AStmt), i ∈ del l → l[i]? = some s → s.asserts = []
+
+/-- `(statement id, assertion list)` of a statement that carries at least one assertion -/
+def carriesK (k : Nat × List Assertion) : Bool := !k.2.isEmpty
+
+/-- the statements of a test case that carry assertions, as keys, in order -/
+def carrying (l : List AStmt) : List (Nat × List Assertion) := (l.map AStmt.key).filter carriesK
+
+theorem idxMaskFrom_true {idxs : List Nat} : ∀ (n k i : Nat),
+    (PynguinModel.TestCase.idxMaskFrom idxs k n)[i]? = some true → k + i ∈ idxs := by
+  intro n
+  induction n with
+  | zero => intro k i h; simp [PynguinModel.TestCase.idxMaskFrom] at h
+  | succ n ih =>
+    intro k i h
+    cases i with
+    | zero => simpa [PynguinModel.TestCase.idxMaskFrom] using h
+    | succ i =>
+      simp only [PynguinModel.TestCase.idxMaskFrom, List.getElem?_cons_succ] at h
+      have := ih (k + 1) i h
+      have e : k + (i + 1) = k + 1 + i := by omega
+      rw [e]; exact this
+
+/-- entries that satisfy `p` survive a mask that is set only at entries that do not -/
+theorem filter_sublist_keepMask {α : Type} (p : α → Bool) (l : List α) (m : List Bool)
+    (h : ∀ (i : Nat) (a : α), m[i]? = some true → l[i]? = some a → p a = false) :
+    (l.filter p).Sublist (keepMask l m) := by
+  induction l generalizing m with
+  | nil => simp [keepMask]
+  | cons s l ih =>
+    cases m with
+    | nil => simp only [keepMask]; exact List.filter_sublist
+    | cons b m =>
+      have htail : ∀ (i : Nat) (a : α), m[i]? = some true → l[i]? = some a → p a = false :=
+        fun i a hm hl => h (i + 1) a (by simpa using hm) (by simpa using hl)
+      cases b with
+      | true =>
+        have hs : p s = false := h 0 s (by simp) (by simp)
+        simp only [keepMask, if_true, List.filter_cons, hs]
+        exact ih m htail
+      | false =>
+        simp only [keepMask, List.filter_cons]
+        split
+        · exact (ih m htail).cons_cons s
+        · exact (ih m htail).cons s
+
+theorem carrying_eq_filter_map (l : List AStmt) :
+    carrying l = (l.filter (fun s => carriesK s.key)).map AStmt.key := by
+  unfold carrying
+  rw [List.filter_map]
+  rfl
+
+/-- `remove_statements_batch` with indexes of assertion-free statements keeps every carrying statement -/
+theorem carrying_sublist_removeBatch (l : List AStmt) (idxs : List Nat)
+    (h : ∀ (i : Nat) (s : AStmt), i ∈ idxs → l[i]? = some s → s.asserts = []) :
+    (carrying l).Sublist ((removeBatch l idxs).map AStmt.key) := by
+  rw [carrying_eq_filter_map]
+  apply List.Sublist.map
+  unfold removeBatch
+  apply filter_sublist_keepMask
+  intro i s hm hl
+  have hi := idxMaskFrom_true (idxs := idxs) l.length 0 i hm
+  rw [Nat.zero_add] at hi
+  have := h i s hi hl
+  simp [carriesK, AStmt.key, this]
+
+theorem carrying_ruFix (l : List AStmt) : carrying (ruFix l).2 = carrying l := by
+  unfold carrying; rw [ruFix_key]
+
+theorem carrying_sublist_keys (l : List AStmt) : (carrying l).Sublist (l.map AStmt.key) :=
+  List.filter_sublist
+
+/-- the code's visitor is the member of the family that deletes nothing -/
+theorem removeBatch_nil (l : List AStmt) : removeBatch l [] = l := by
+  unfold removeBatch
+  have : ∀ (l : List AStmt) (k n : Nat), keepMask l (PynguinModel.TestCase.idxMaskFrom [] k n) = l := by
+    intro l
+    induction l with
+    | nil => intro k n; simp [keepMask]
+    | cons s l ih =>
+      intro k n
+      cases n with
+      | zero => simp [PynguinModel.TestCase.idxMaskFrom, keepMask]
+      | succ n => simp [PynguinModel.TestCase.idxMaskFrom, keepMask, ih]
+  exact this l 0 l.length
+
+theorem visitUnused_eq_visitWith (l : List AStmt) : visitUnused l = visitWith visitorDeleted l := by
+  simp [visitUnused, visitWith, visitorDeleted, removeBatch_nil]
+
+theorem applyOp_eq_applyOpWith (l : List AStmt) (op : Op) : applyOp l op = applyOpWith visitorDeleted l op := by
+  cases op <;> simp [applyOpWith, applyOp, visitUnused_eq_visitWith]
+
+theorem history_eq_historyWith (l : List AStmt) (ops : List Op) : history l ops = historyWith visitorDeleted l ops := by
+  unfold history historyWith
+  congr 1
+  funext l op
+  exact applyOp_eq_applyOpWith l op
+
+theorem visitorDeleted_spares : SparesAssertions visitorDeleted := by
+  intro l i s hi; simp [visitorDeleted] at hi
+
+/-- whatever the visitor deletes, a step only removes whole statements -/
+theorem applyOpWith_keys (del : List AStmt → List Nat) (l : List AStmt) (op : Op) :
+    ((applyOpWith del l op).map AStmt.key).Sublist (l.map AStmt.key) := by
+  cases op with
+  | visitUnused =>
+    simp only [applyOpWith, visitWith]
+    have := (removeBatch_sublist (ruFix l).2 (del (ruFix l).2)).map AStmt.key
+    rwa [ruFix_key] at this
+  | removeUnused => exact applyOp_keys l .removeUnused
+  | removeFwd i => exact applyOp_keys l (.removeFwd i)
+  | chop p => exact applyOp_keys l (.chop p)
+  | clone => exact applyOp_keys l .clone
+
+theorem historyWith_keys (del : List AStmt → List Nat) (l : List AStmt) (ops : List Op) :
+    ((historyWith del l ops).map AStmt.key).Sublist (l.map AStmt.key) := by
+  induction ops generalizing l with
+  | nil => exact List.Sublist.refl _
+  | cons op ops ih =>
+    simp only [historyWith, List.foldl_cons]
+    exact (ih (applyOpWith del l op)).trans (applyOpWith_keys del l op)
+
+/-- a step that is not a minimiser removal keeps every assertion-carrying statement, provided the visitor's
+deletions spare them -/
+theorem carrying_sublist_applyOpWith {del : List AStmt → List Nat} (hd : SparesAssertions del)
+    (l : List AStmt) (op : Op) (h : op.isRemoveUnused = true) :
+    (carrying l).Sublist ((applyOpWith del l op).map AStmt.key) := by
+  cases op with
+  | visitUnused =>
+    simp only [applyOpWith, visitWith]
+    rw [← carrying_ruFix l]
+    exact carrying_sublist_removeBatch _ _ (fun i s hi hs => hd _ i s hi hs)
+  | removeUnused =>
+    simp only [applyOpWith, applyOp]; rw [ruFix_key]; exact carrying_sublist_keys l
+  | clone => exact carrying_sublist_keys l
+  | removeFwd i => simp [Op.isRemoveUnused] at h
+  | chop p => simp [Op.isRemoveUnused] at h
+
+theorem carrying_sublist_historyWith {del : List AStmt → List Nat} (hd : SparesAssertions del)
+    (l : List AStmt) (ops : List Op) (h : ∀ op ∈ ops, op.isRemoveUnused = true) :
+    (carrying l).Sublist ((historyWith del l ops).map AStmt.key) := by
+  induction ops generalizing l with
+  | nil => exact carrying_sublist_keys l
+  | cons op ops ih =>
+    simp only [historyWith, List.foldl_cons]
+    have h1 := h op (by simp)
+    have h2 : ∀ o ∈ ops, o.isRemoveUnused = true := fun o ho => h o (by simp [ho])
+    have step := carrying_sublist_applyOpWith hd l op h1
+    have ih' := ih (applyOpWith del l op) h2
+    simp only [historyWith] at ih'
+    refine List.Sublist.trans ?_ ih'
+    -- carrying l ⊑ keys(l1), all of them carry ⇒ carrying l ⊑ carrying l1
+    have := step.filter carriesK
+    have e : (carrying l).filter carriesK = carrying l := by
+      unfold carrying; rw [List.filter_filter]; simp
+    rw [e] at this
+    exact this
+
+/-- from keys to exported groups: the renderable assertions of the carrying statements -/
+def oracleOfKey (k : Nat × List Assertion) : Nat × List Assertion := (k.1, k.2.filter Assertion.renders)
+
+theorem map_oracle_eq (l : List AStmt) : l.map AStmt.oracle = (l.map AStmt.key).map oracleOfKey := by
+  rw [List.map_map]; rfl
 
 /-! ### export -/
 
